@@ -80,11 +80,14 @@ def tagged(lines, tag):
     return None
 
 
-def streams(s):
+def streams(s, nout):
+    """'v,v;v;…' -> one list per external output (an empty string is `nout` empty streams)"""
     if s is None:
         return None
     s = s.replace(" hazard", "")
-    return [[x for x in p.split(",") if x] for p in s.split(";")] if s != "" else []
+    if nout == 0:
+        return []
+    return [[x for x in p.split(",") if x] for p in s.split(";")]
 
 
 def prefix_ok(a, b):
@@ -130,7 +133,7 @@ class Tot:
     def __init__(self):
         self.n = {"net_cases": 0, "net_ok": 0, "sim_cases": 0, "sim_ticks": 0, "hdl_cases": 0, "hdl_clocks": 0, "hdl_ok": 0,
                   "stream_compared": 0, "stream_live": 0, "stream_values": 0, "excluded_by_PortReuseSafe": 0, "no_traffic": 0,
-                  "env_checked": 0, "model_stream_checked": 0, "noise_cases": 0}
+                  "env_checked": 0, "model_stream_checked": 0, "noise_cases": 0, "ref_checked": 0}
         self.dist = {"procs": {}, "rsize": {}, "maxfan": {}, "inputs": {}, "outputs": {}, "mixed_consumers": 0, "unlinked_sinks": 0,
                      "unconsumed_drivers": 0, "bonds": 0}
         self.distinct = set()
@@ -187,17 +190,25 @@ def compare(tot, ci_all, cm_all, mode):
                 tot.fails.append(dict(base, kind="sim-correspondence", step=t, impl=xi[t], model=xm[t], stim=vi[:t + 1]))
                 break
         ev = tagged(cm, "EV")
-        ss = streams(tagged(ci, "SS"))
+        nout = int(g.split()[3])
+        ss = streams(tagged(ci, "SS"), nout)
         if ev is None:
             tot.n["noise_cases"] += 1
             continue
         tot.n["env_checked"] += 1
         if ev != "ok" and not (hz_tick is not None and ev.startswith("differ@") and int(ev[7:]) >= hz_tick):
             tot.fails.append(dict(base, kind="env-correspondence", detail=ev))
-        ms = streams(tagged(cm, "MS"))
+        ms = streams(tagged(cm, "MS"), nout)
         if hz_tick is None and ss != ms:
             tot.fails.append(dict(base, kind="env-correspondence", detail="streams of the harness automaton and of the Lean automaton differ",
                                   impl=tagged(ci, "SS"), model=tagged(cm, "MS")))
+        # named hypothesis IsaRefines, tested: the real VM's streams against the reference network's
+        rf = streams(tagged(cm, "RF"), nout)
+        if hz_tick is None and rf is not None:
+            tot.n["ref_checked"] += 1
+            if not prefix_ok(ss, rf):
+                tot.fails.append(dict(base, kind="reference-stream", detail="the simulator's delivered streams are not those of the blocking-IO reference network (refutes IsaRefines)",
+                                      impl=tagged(ci, "SS"), model=tagged(cm, "RF")))
         if mode != "hdl":
             continue
         tot.n["hdl_cases"] += 1
@@ -216,9 +227,9 @@ def compare(tot, ci_all, cm_all, mode):
             tot.n["hdl_clocks"] += at
             if hz_clock is None or at < hz_clock:
                 tot.fails.append(dict(base, kind="hdl-correspondence", detail=yz[:1500]))
-        sh = streams(tagged(cm, "SH"))
+        sh = streams(tagged(cm, "SH"), nout)
         sr_raw = tagged(cm, "SR") or ""
-        sr = streams(sr_raw)
+        sr = streams(sr_raw, nout)
         if hz_tick is not None or hz_clock is not None or "hazard" in sr_raw:
             tot.n["excluded_by_PortReuseSafe"] += 1
             continue
@@ -249,6 +260,9 @@ def compare(tot, ci_all, cm_all, mode):
                 if len(tot.samples) < 2:
                     tot.samples.append({"graph": g, "programs": [l for l in ci if l.startswith("S ")], "environment": tagged(ci, "E"),
                                         "simulator_streams": tagged(ci, "SS"), "hdl_streams": tagged(cm, "SH")})
+        if rf is not None and not prefix_ok(sh, rf):
+            tot.fails.append(dict(base, kind="reference-stream", detail="the generated HDL's delivered streams are not those of the blocking-IO reference network (refutes RtlRefines)",
+                                  impl=tagged(cm, "SH"), model=tagged(cm, "RF")))
         # the statement of stream_eq on the two models
         tot.n["model_stream_checked"] += 1
         if not prefix_ok(ms, sr):
@@ -309,10 +323,10 @@ def run(rep):
                    "the reactive environment automaton exists twice (Go: cmd/c02 envState.step, Lean: BMV.Bm.envStep); equality of what they drive is checked on every case",
                    "two-state hardware values: registers start at 0 after reset, an undriven wire reads 0"])
     rep.assumptions += [
-        "PortReuseSafe (the C04 defect, handled under C04): no processor starts a handshake instruction on a port whose previous 4-phase cycle "
-        "is not over (i2rw taking a value while its own recv is still up; r2owa raising valid while recv is still up from the previous transfer). "
-        "Generated programs separate two uses of one port by all other instructions of the loop (at least three non-IO ones); runs that still meet "
-        "the signature (monitors BMV.Bm.isaHazard / rtlHazard, evaluated on the tied models) are counted under excluded_by_PortReuseSafe and not compared",
+        "PortReuseSafe (the C04 signature: a handshake instruction starting on a port whose previous 4-phase cycle is not over) is a named hypothesis of "
+        "stream_eq_full; with the repaired handshake (/repo fix 18c0f8e, models following it) theorem port_reuse_safe_always proves it for every machine, "
+        "so the generator also emits back-to-back uses of one port (VERIF_C02_TIGHT=0 turns that off). The monitors BMV.Bm.isaHazard / rtlHazard stay "
+        "in the oracle: a run that meets the signature is counted under excluded_by_PortReuseSafe and not stream-compared (0 expected)",
         "protocol-abiding environment: holds valid until received and waits for received to drop; acknowledges after valid and holds the acknowledge until valid drops",
         "ha mode, L = 0, opcodes nop rset inc dec clr add mult cpy j i2rw r2owa; shared objects, external modules (etherbond, bmapi, board top levels), "
         "simbox delay distributions are outside the model",
@@ -366,7 +380,8 @@ def run(rep):
             detail = f
             names = {"sim-correspondence": "BMV.Bm.isaStep vs bondmachine.VM.Step", "hdl-correspondence": "BMV.Bm.rtlCycle vs emitted Verilog under BMV.Vlog",
                      "hdl-not-accepted": "emitted file set not accepted by the Verilog reader/elaborator", "netlist-correspondence": "BMV.Bond.wire vs emitted bondmachine.v",
-                     "env-correspondence": "Lean environment automaton vs harness automaton", "model-stream": "stream_eq_full refuted on the models"}
+                     "env-correspondence": "Lean environment automaton vs harness automaton", "model-stream": "stream_eq_full refuted on the models",
+                     "reference-stream": "IsaRefines / RtlRefines refuted: a world delivers what the reference network cannot"}
             broken.append("correspondence: " + names.get(f["kind"], f["kind"]))
         rep.violation({"property": PROP, "kind": "proof-or-correspondence-broken", "broken": broken, "first_disagreement": detail,
                        "searched": "real VM vs emitted Verilog under BMV.Vlog: delivered streams of %d machines (%d with live traffic, %d values) agree; "
@@ -383,6 +398,8 @@ def replay(rep, path):
     ci, cm = run_pair(hbin, ["replay" + mode, write_replay_file(f.get("case", []), f.get("ticks"))])
     tot = Tot()
     compare(tot, ci, cm, mode)
+    if not ci:
+        tot.fails.append({"kind": "replay-did-not-run", "mode": mode, "case": f.get("case", [])})
     rep.coverage.update({"evaluations": max(1, tot.n["net_cases"] + tot.n["sim_ticks"] + tot.n["hdl_clocks"]),
                          "distinct_nontrivial": max(1, len(tot.distinct)), "rule": "replay of " + path,
                          "samples": [f.get("case", [])[:1]]})
